@@ -141,7 +141,7 @@ class ProblemInfo:
 def sparse_cholesky(A):
     """Computes Cholesky factorization for sparse matrix `A` and returns the upper triangular factor `U`, where `A=U^T@U`"""
     # https://gist.github.com/omitakahiro/c49e5168d04438c5b20c921b928f1f5d
-    LU = spslinalg.splu(A, diag_pivot_thresh=0, permc_spec='natural') # sparse LU decomposition
+    LU = spslinalg.splu(A, diag_pivot_thresh=0, permc_spec='natural', options=dict(SymmetricMode=True)) # sparse LU decomposition (no row pivoting for symmetric matrices)
 
 
     # check the matrix A is positive definite
